@@ -2,7 +2,7 @@
 The freshly built vecli binary talks to a device simulator behind a pseudo-terminal; its
 output is parsed and compared with the extracted Coq model (Api.v / Cli.v) run on the same
 device script."""
-import json, os, pty, re, select, subprocess, termios, threading, time, tty
+import itertools, json, os, pty, re, select, subprocess, termios, threading, time, tty
 from lib import common, gen, apicases
 from lib.cases import Rng, get_resp, done_resp, ping_resp, le, ev_data
 from lib.common import Broken
@@ -111,7 +111,7 @@ def parse_cli_values(out):
     return lines
 
 
-def compare_with_model(res, dev, regs, cli_lines, model_tokens, what):
+def compare_with_model(res, dev, regs, cli_lines, model_tokens, what, flnames={}):
     """cli_lines: value lines printed by the CLI; model_tokens: dict name -> model value token"""
     by_sort = {r["name"]: r["sort"] for r in regs}
     kinds = {r["name"]: r["kind"] for r in regs}
@@ -146,7 +146,15 @@ def compare_with_model(res, dev, regs, cli_lines, model_tokens, what):
             idx, nm = tok[1:].split(":")
             good = val == "%s:%s" % (idx, bytes.fromhex(nm).decode())
         else:
-            good = True   # rendering judged by C15; here only presence
+            # the set fields' names, each once, separated by ", " (order is C15's subject; names may contain ", ")
+            fac = [r for r in regs if r["name"] == name][0]["factory"]
+            nm = flnames.get(fac, {})
+            setnames = sorted(nm.get(x.split(":")[0], "?") for x in tok[1:].split(",") if ":" in x and x.split(":")[1] == "1")
+            good = False
+            if len(setnames) <= 6:
+                good = any(val == ", ".join(p) for p in itertools.permutations(setnames))
+            else:
+                good = len(val) == len(", ".join(setnames)) and all(n in val for n in setnames)
         if not good:
             res.add_violation("%s: register %s printed as %r, the device holds %s" % (what, name, val, tok), key="C20:value:%s" % name,
                               input={"device_id": dev, "register": name}, observed=l, expected=tok)
@@ -201,7 +209,7 @@ def run(res, args):
                 res.add_violation("%s: first line %r does not report %d fetched registers" % (what, lines[:1], len(model_tokens)),
                                   key="C20:first-line", input={"device_id": dev}, observed=r["out"][:500])
                 continue
-            compare_with_model(res, dev, regs, lines[1:], model_tokens, what)
+            compare_with_model(res, dev, regs, lines[1:], model_tokens, what, t.get("flnames", {}))
             # frames the device saw: ping, device id, then one Get per register in the model's order
             if "--io-log" in flags:
                 rc2, rout = common.sh("%s ioreplay %s" % (common.GVRUN, flags[1]))
